@@ -72,8 +72,8 @@ def slices(tier):
             Slice("s-second2", [W, DV, DV2, F], A1, 5, jets=scalar, levels=[{"mul", "div"}, {"mul", "add", "pow"}, G1, {"gateaux2"}, FIN], **kw),
             Slice("userd-two2", [W, DV, F, G, ("h", ())], A1, 5, jets=userd2, levels=[{"mul"}, G1, {"gateaux2"}, {"add", "mul"}, FIN], chain=True, **kw),
             Slice("userd2", [W, DV, F, G], A1, 4, jets=userd, levels=[{"mul", "add", "pow", "div"}, {"mul", "add", "div"}, G1, FIN], **kw),
-            Slice("s3", [W, DV, DV2, F, GW, GDV], A1, 5, lits=[LIT["two"]], idx=(10,), jets=scalar, levels=[A1 | {"index", "dot"}, A2 | {"dot", "inner", "index"}, A2, G1, FIN], mikinds=("name", "fixed"), **kw),
-            Slice("v3", [U, DU, F, GU, GDU], E1, 5, idx=(10,), jets=vector, levels=[{"index", "dot", "inner", "outer", "mul", "list", "tr", "as_tensor"}, {"mul", "add", "index", "dot", "inner"}, {"mul", "add", "div", "pow", "abs", "cond", "lt"}, G1, FIN], mikinds=("name", "fixed"), **kw),
+            Slice("s3", [W, DV, DV2, F, GW, GDV], A1, 5, lits=[LIT["two"]], idx=(10,), jets=scalar, levels=[A1 | {"index", "dot"}, A2 | {"dot", "inner", "index"}, A2, G1, FIN], mikinds=("name", "fixed"), chain=True, simulate=1500, depth=6, **kw),
+            Slice("v3", [U, DU, F, GU, GDU], E1, 5, idx=(10,), jets=vector, levels=[{"index", "dot", "inner", "outer", "mul", "list", "tr", "as_tensor"}, {"mul", "add", "index", "dot", "inner"}, {"mul", "add", "div", "pow", "abs", "cond", "lt"}, G1, FIN], mikinds=("name", "fixed"), chain=True, simulate=1500, depth=6, **kw),
         ]
     return out
 
